@@ -13,6 +13,11 @@ Modelled == {"rng:ran_arr_buf", "rng:ran_arr_dummy", "rng:ran_arr_ptr", "rng:ran
 \* relocated constant tables that nothing writes after start-up (confirmed on every run by the race detector: a write to one of them is a race)
 ReadOnlyInPractice == {"html:lc_lookup", "miniz:mz_error.s_error_descs"}
 ASSUME GlobalsAreModelled == Globals \subseteq (Modelled \cup ReadOnlyInPractice)
+\* hidden state of the C library reached from library code.  Known and outside what the runs exercise (stated as assumptions of the check): rand / srand are consulted
+\* only for random anchors / labels (off, as the property presupposes for reproducible bytes) and for the uuids of packaged formats; localtime only for the time stamps
+\* of packaged formats (EPUB metadata, ZIP headers).  Any other call of this kind is shared mutable state the specification has no model of.
+LibcKnown == {"html:rand", "html:srand", "uuid:rand", "uuid:srand", "writer:rand", "writer:srand", "epub:localtime", "miniz:localtime"}
+ASSUME LibcStateIsKnown == LibcState \subseteq LibcKnown
 
 Threads == 1 .. T
 Owner(t) == IF Defect_SharedRng THEN 0 ELSE t          \* which generator instance thread t uses
